@@ -387,6 +387,29 @@ Proof.
   destruct a as [m|c| | |[|]]; try discriminate; reflexivity.
 Qed.
 
+Theorem resign_result g c g' :
+  g_resign g c = Some (true, g') ->
+  result g' = Some (Some (match c with White => WhiteResigns | Black => BlackResigns end)).
+Proof.
+  intro H. apply resign_accept in H. destruct H as [Ho ->].
+  rewrite (result_after_closing g (Resign c) Ho eq_refl). destruct c; reflexivity.
+Qed.
+Theorem accept_result g g' : g_accept_draw g = Some (true, g') -> result g' = Some (Some DrawAccepted).
+Proof.
+  intro H. apply accept_accept in H. destruct H as (Ho & -> & _).
+  apply (result_after_closing g AcceptDraw Ho eq_refl).
+Qed.
+Theorem declare_result g g' : g_declare_draw g = Some (true, g') -> result g' = Some (Some DrawDeclared).
+Proof.
+  intro H. apply declare_accept in H. destruct H as [Hc ->].
+  apply (result_after_closing g DeclareDraw (can_declare_true_open g Hc) eq_refl).
+Qed.
+Theorem offer_result g c g' : g_offer_draw g c = Some (true, g') -> result g' = Some None.
+Proof.
+  intro H. apply offer_accept in H. destruct H as [Ho ->].
+  apply (result_after_closing g (OfferDraw c) Ho eq_refl).
+Qed.
+
 (** *** the result names the right outcome *)
 Theorem result_names_outcome g b r :
   current_position g = Some b ->
@@ -497,6 +520,11 @@ Proof.
     rewrite app_assoc in E. apply app_inj_tail in E. destruct E as [E _].
     apply (HL l1 m' l2 bl E Hp).
 Qed.
+
+(** a board predicate closed under applying legal moves (the interface assumption about
+    [Board]: a legal move can be applied, and the predicate persists) *)
+Definition StepClosed (Inv:board -> Prop) : Prop :=
+  forall b m, Inv b -> legal b m = true -> exists b', mm b m = Some b' /\ Inv b'.
 
 Section Invariant.
 Variable Inv : board -> Prop.
@@ -631,4 +659,35 @@ Qed.
 Theorem reachable_log_legal b0 g :
   Inv b0 -> Reachable b0 g -> LegalLog b0 (actions g).
 Proof. intros Hi Hr. destruct (Reachable_Good b0 g Hi Hr) as (_ & _ & H). exact H. Qed.
+(** *** the protocol on reachable games *)
+Theorem reachable_protocol b0 g :
+  Inv b0 -> Reachable b0 g ->
+  exists b, current_position g = Some b /\ Inv b /\ side_to_move g = stm b /\
+    forall o,
+      (forall g', apply_op g o = Some (true, g') <->
+         has_result g = Some false /\ op_enabled g b o /\ g' = push_action g (op_action o)) /\
+      (~ (has_result g = Some false /\ op_enabled g b o) -> apply_op g o = Some (false, g)).
+Proof.
+  intros Hi Hr. destruct (Good_pos b0 g (Reachable_Good b0 g Hi Hr)) as (b & Hb & Hib).
+  exists b. split; [exact Hb|]. split; [exact Hib|]. split; [apply side_to_move_correct, Hb|].
+  intro o. split; [intro g'; apply protocol_accept, Hb|apply protocol_refuse, Hb].
+Qed.
+
+Theorem reachable_make_move b0 g m :
+  Inv b0 -> Reachable b0 g ->
+  exists b, current_position g = Some b /\
+    (forall g', g_make_move g m = Some (true, g') <->
+       has_result g = Some false /\ legal b m = true /\ g' = push_action g (MakeMove m)) /\
+    (~ (has_result g = Some false /\ legal b m = true) -> g_make_move g m = Some (false, g)) /\
+    (legal b m = true -> exists b', mm b m = Some b' /\
+       current_position (push_action g (MakeMove m)) = Some b' /\ stm b' = opp (stm b)).
+Proof.
+  intros Hi Hr. destruct (Good_pos b0 g (Reachable_Good b0 g Hi Hr)) as (b & Hb & Hib).
+  exists b. split; [exact Hb|]. split; [intro g'; apply make_move_accept, Hb|].
+  split; [apply make_move_refuse, Hb|].
+  intro Hl. destruct (inv_step b m Hib Hl) as (b' & Hm & _). exists b'.
+  split; [exact Hm|]. split; [rewrite current_position_push_move, Hb; exact Hm|].
+  apply (mm_flips_turn b m b' Hm).
+Qed.
+
 End Invariant.
